@@ -245,7 +245,7 @@ def per_item_loop(b, cursors, item_types=ITEM_TYPES):
         if x in seen:
             continue
         seen.add(x)
-        if 1 <= x <= b.arg_count and any(t in b.locals[x]["ty"] for t in item_types):
+        if 1 <= x <= b.arg_count and (item_types is None or any(t in b.locals[x]["ty"] for t in item_types)):
             return True
         for blk in b.blocks:
             for stt in blk["stmts"]:
@@ -283,7 +283,7 @@ def scope(f, roots, ctx_adt, stop=STOP):
     return seen
 
 
-def run(rep, ctx, key, roots, ctx_adt=None, rule="R1p", stop=STOP):
+def run(rep, ctx, key, roots, ctx_adt=None, rule="R1p", stop=STOP, item_types=ITEM_TYPES):
     """every loop of the bodies in scope: a carried variable holding scheme data must be an accumulator of that loop
     (its value is read after the loop), the loop's cursor, or the random source / sponge. Returns (#loops, #carried)."""
     f = ctx.facts
@@ -293,7 +293,7 @@ def run(rep, ctx, key, roots, ctx_adt=None, rule="R1p", stop=STOP):
         loops = _natural_loops(body)
         for h, blocks in sorted(loops):
             cursors = _iterator_locals(body, h, blocks)
-            if not per_item_loop(body, cursors):
+            if not per_item_loop(body, cursors, item_types):
                 continue
             n_loops += 1
             for x, loc in enumerate(body.locals):
